@@ -9,7 +9,10 @@
 //   rej  = "-" | "<x>:<k>"            instrumented executor m<x> refuses its k-th Submit (k >= 1) and every later one
 //   co   = "-" | "e.id,e.id,..."      the top-level source is a coroutine whose body is  co_await On(e); log(id);  for every
 //                                     entry, before it co_returns its Result (program source must be (coro ...))
-//   fin  = "-" | "d"                  d: the last Then step is attached as the final continuation instead:
+//   fin  = "-" | "d" | "tf.<e>" | "td.<e>" | "tc" | "tdd"
+//                                     tf.<e> / td.<e> / tc / tdd: the program ends in a Task (no (tofuture)) which is started with
+//                                     ToFuture(e) / Detach(e) / Cancel() / Detach() (lazy/task.hpp:97-120, detail::Start)
+//                                     d: the last Then step is attached as the final continuation instead:
 //                                     Future::DetachInline / Detach(e, f), FutureOn::Detach(f), SharedFuture::SubscribeInline /
 //                                     Subscribe(e, f), SharedFutureOn::Subscribe(f)
 // Printed per case: final Result, every callback (id, argument, stamp), every job of every instrumented executor
@@ -127,6 +130,8 @@ struct Case {
   Rej rej;
   std::vector<Seg> segs;
   bool detach = false;
+  int start = 0;  // 0 none; 1 ToFuture(e); 2 Detach(e); 3 Cancel(); 4 Detach()
+  Exec start_exec;
   Prog prog;
 };
 
@@ -370,7 +375,7 @@ struct Expect5 {
   }
 };
 
-inline void Walk5(const Prog& p, const std::vector<Seg>* segs, Expect5& x);
+inline void Walk5(const Prog& p, const std::vector<Seg>* segs, Expect5& x, const Exec* on = nullptr);
 
 inline void Call5(const FnSpec& f, const Input& in, int stamp, Expect5& x) {
   x.calls.push_back(XCall{f.id, in, stamp});
@@ -397,10 +402,39 @@ inline void Call5(const FnSpec& f, const Input& in, int stamp, Expect5& x) {
   }
 }
 
-inline void Walk5(const Prog& p, const std::vector<Seg>* segs, Expect5& x) {
-  const Src& s = p.src;
+// on != nullptr: p is a Task started with ToFuture( *on) / Detach( *on) / Cancel(): the first step of the chain is handed to *on
+// instead of the executor it was built with, and steps attached without an executor inherit *on along the chain
+inline void Walk5(const Prog& p, const std::vector<Seg>* segs, Expect5& x, const Exec* on) {
+  Src s = p.src;
   const Res stop{2, -1};
   x.exec = Exec{};
+  if (on != nullptr) {
+    s.exec = *on;
+  }
+  if (on != nullptr && (s.kind == 0 || s.kind == 4)) {
+    // MakeTask / a coroutine returning Task: the head itself is the job handed to *on
+    x.exec = *on;
+    auto [ok, stamp] = x.Submit(*on, s.kind == 0 ? 0 : s.id);
+    if (!ok) {
+      x.res = stop;  // dropped: the coroutine body never runs
+    } else if (s.kind == 0) {
+      x.res = s.res;
+    } else {
+      x.calls.push_back(XCall{s.id, Input{4, Res{1, 0}}, stamp});
+      x.res = s.res;
+      if (segs != nullptr) {
+        for (const auto& sg : *segs) {
+          x.exec = sg.exec;
+          auto [ok2, stamp2] = x.Submit(sg.exec, sg.id);
+          if (!ok2) {
+            x.res = stop;
+            break;
+          }
+          x.calls.push_back(XCall{sg.id, Input{4, Res{1, 0}}, stamp2});
+        }
+      }
+    }
+  } else
   switch (s.kind) {
     case 0:
       x.res = s.res;
@@ -472,6 +506,7 @@ inline void Walk5(const Prog& p, const std::vector<Seg>* segs, Expect5& x) {
 struct Outcome5 {
   Res final;
   bool has_final = false;
+  bool started_early = false;  // a callback of a Task ran before the Task was started
   std::vector<Event> events;
   std::string jobs;
   std::string fexec;
@@ -559,6 +594,37 @@ inline Outcome5 RunCase(const Case& c) {
         }
         w = World{};
         Quiesce5(ctx, ex);
+      } else if (c.start != 0) {
+        Quiesce5(ctx, ex);
+        const std::size_t before = ctx.events.size();
+        auto& se = ctx.Executor(c.start_exec);
+        auto go = [&](auto& task) {
+          if (c.start == 1) {
+            auto fut = std::move(task).ToFuture(se);
+            Quiesce5(ctx, ex);
+            out.fexec = ExecName(fut.GetCore()->_executor.Get(), ex);
+            out.final = fut.Ready() ? DescResult(std::move(fut).Get()) : Res{5, 0};
+            out.has_final = true;
+          } else if (c.start == 2) {
+            std::move(task).Detach(se);
+          } else if (c.start == 3) {
+            std::move(task).Cancel();
+          } else {
+            std::move(task).Detach();
+          }
+        };
+        if (auto* ti = std::get_if<Tsk<int>>(&w)) {
+          go(*ti);
+        } else if (auto* tv = std::get_if<Tsk<void>>(&w)) {
+          go(*tv);
+        } else {
+          Die("a start form needs a program that ends in a Task");
+        }
+        w = World{};
+        if (before != 0) {
+          out.started_early = true;
+        }
+        Quiesce5(ctx, ex);
       } else {
         Quiesce5(ctx, ex);
         out.fexec = FinalExec(w, ex);
@@ -605,7 +671,8 @@ inline Outcome5 RunCase(const Case& c) {
   // ---- oracle
   Expect5 x;
   x.rej = c.rej;
-  Walk5(c.prog, c.segs.empty() ? nullptr : &c.segs, x);
+  Exec start_exec = c.start == 3 ? Exec{2, 0} : c.start_exec;
+  Walk5(c.prog, c.segs.empty() ? nullptr : &c.segs, x, (c.start >= 1 && c.start <= 3) ? &start_exec : nullptr);
   auto fail = [&](const std::string& key, const std::string& what) {
     if (out.fail.empty()) {
       out.fail = what;
@@ -723,6 +790,23 @@ inline Case ParseCase(const std::string& line) {
     }
   }
   c.detach = fin == "d";
+  if (fin.rfind("tf.", 0) == 0 || fin.rfind("td.", 0) == 0) {
+    c.start = fin[1] == 'f' ? 1 : 2;
+    const std::string en = fin.substr(3);
+    if (en == "i") {
+      c.start_exec.kind = 0;
+    } else if (en == "s") {
+      c.start_exec.kind = 2;
+    } else {
+      c.start_exec.kind = 1;
+      c.start_exec.n = std::atoi(en.c_str() + 1);
+    }
+  } else if (fin == "tc") {
+    c.start = 3;
+    c.start_exec.kind = 2;
+  } else if (fin == "tdd") {
+    c.start = 4;
+  }
   Parser ps{line.c_str() + pos};
   c.prog = ps.ParseProg();
   return c;
